@@ -15,7 +15,7 @@ EXPLANATION = (
     "(2) CLOS: the weak-reference callback stored with the handlers captures neither the sender nor the weak/user arguments strongly, weak arguments are stored only as weakref.ref, "
     "and the handler tuple holds no reference to the sender; (3) EXC/ORDER: disconnect and disconnect_by_key cannot raise (modelled origins), connect rejects an unregistered name with "
     "NameError before the handler is appended; (4) a dead weak argument returns False before the callback is called, and liveness is tested by identity with None, not by truthiness; "
-    "(5) emit visits every handler: the dispatch is a plain loop with no early exit or short-circuit, the result is accumulated and returned; (6) ALIAS: the handler list registered for (sender, signal) is only edited in place and never replaced - connect() holds an alias to it across the creation of the weak references, whose callbacks may disconnect at that very moment."
+    "(5) emit visits every handler: the dispatch is a plain loop with no early exit or short-circuit, the result is accumulated and returned; (7) disconnect() identifies the handler by every field connect() stores except the key; (6) ALIAS: the handler list registered for (sender, signal) is only edited in place and never replaced - connect() holds an alias to it across the creation of the weak references, whose callbacks may disconnect at that very moment."
 )
 NOT_DECIDED = "Call order and argument order for all histories (list semantics), garbage-collection timing, behaviour for handlers connected/disconnected mid-emit beyond 'handlers that stay connected are called once'."
 ASSUMPTIONS = []
@@ -252,6 +252,36 @@ def rule_list_identity(ctx: Ctx) -> RuleResult:
     return rr
 
 
+def rule_disconnect_fields(ctx: Ctx) -> RuleResult:
+    """connect() stores (key, callback, user_arg, user_args); disconnect() must identify the handler by *all*
+    fields but the key, in the stored order - comparing fewer fields removes a different handler."""
+    p = ctx.p
+    rr = RuleResult("TAB", "C14.7", "disconnect() matches a handler on every field connect() stores except the key", floor=2)
+    conn = p.func(f"{SIG}.connect")
+    disc = p.func(f"{SIG}.disconnect")
+    stored = None
+    for c in conn.own_nodes():
+        if isinstance(c, ast.Call) and isinstance(c.func, ast.Attribute) and c.func.attr == "append" and c.args and isinstance(c.args[0], ast.Tuple):
+            stored = [ast.unparse(e) for e in c.args[0].elts]
+    if not stored or len(stored) < 2:
+        raise AnalysisError("Signals.connect: handlers.append((key, ...)) not found")
+    rr.inst("stored record", True, {"stored": stored})
+    want = stored[1:]
+    ok = False
+    got = None
+    for n in disc.own_nodes():
+        if isinstance(n, ast.Compare) and len(n.ops) == 1 and isinstance(n.ops[0], ast.Eq):
+            l, r = n.left, n.comparators[0]
+            for a, b in ((l, r), (r, l)):
+                if isinstance(a, ast.Subscript) and isinstance(a.slice, ast.Slice) and isinstance(a.slice.lower, ast.Constant) and a.slice.lower.value == 1 and a.slice.upper is None and isinstance(b, ast.Tuple):
+                    got = [ast.unparse(e) for e in b.elts]
+                    ok = got == want
+    rr.inst("disconnect comparison", True, {"compared": got, "expected": want})
+    if not ok:
+        rr.add(finding("TAB", disc, disc.node, f"disconnect() does not compare the stored record minus the key, `h[1:] == ({', '.join(want)})`" + (f" (it compares {got})" if got else " (no whole-record comparison found)") + ": handlers that differ only in an uncompared field are confused - the wrong one is removed, or a never-connected combination removes a connected handler", construct="disconnect does not compare all stored fields"))
+    return rr
+
+
 def run(ctx: Ctx):
     p = ctx.p
     out = [
@@ -263,6 +293,7 @@ def run(ctx: Ctx):
         rule_dead_weak(ctx),
         rule_emit_total(ctx),
         rule_list_identity(ctx),
+        rule_disconnect_fields(ctx),
     ]
     return out
 
@@ -280,6 +311,7 @@ MUTANTS = [
     Mut("disconnect-by-key-raises", _F, "Signals.disconnect_by_key", "handlers[:] = [h for h in handlers if h[0] is not key]", "handlers.remove(next(h for h in handlers if h[0] is key))", "EXC|"),
     Mut("connect-append-before-check", _F, "Signals.connect", "raise NameError(f\"No such signal {name!r} for object {obj!r}\")", "pass", ("EXC|", "ORDER|")),
     Mut("handler-list-replaced", _F, "Signals.disconnect_by_key", "handlers = setdefaultattr(obj, self._signal_attr, {}).get(name, [])\n        handlers[:] = [h for h in handlers if h[0] is not key]", "signals = setdefaultattr(obj, self._signal_attr, {})\n        if name in signals:\n            signals[name] = [h for h in signals[name] if h[0] is not key]", "ALIAS|"),
+    Mut("disconnect-ignores-user-arg", _F, "Signals.disconnect", "        for h in handlers:\n            if h[1:] == (callback, user_arg, user_args):\n                return self.disconnect_by_key(obj, name, h[0])", "        for key, h_callback, _h_user_arg, h_user_args in handlers:\n            if h_callback == callback and h_user_args == user_args:\n                return self.disconnect_by_key(obj, name, key)", "TAB|signals.Signals.disconnect"),
     Mut("twin-tuple-snapshot", _F, "Signals.emit", "in list(handlers):", "in tuple(handlers):", twin=True),
     Mut("twin-rename-accumulator", _F, "Signals.emit", "result = False", "result = False  # accumulator", twin=True),
     Mut("twin-slice-snapshot", _F, "Signals.emit", "in list(handlers):", "in handlers[:]:", twin=True),
